@@ -44,6 +44,12 @@ fn expr_src(e: &str) -> String {
 pub fn stmt_src(s: &str) -> String {
   let p: Vec<&str> = s.split(':').collect();
   match p[0] {
+    "D" if p[3].starts_with('K') => {
+      // a define whose annotation states the kind and shape the source already has: `b<[f64]:1,3> := a`, `b<f64> := a`
+      let (shape, name) = p[3][1..].split_once('/').unwrap();
+      let ann = if shape == "0" { "f64".to_string() } else { let (r, c) = shape.split_once('x').unwrap(); format!("[f64]:{},{}", r, c) };
+      format!("{}{}<{}> := {}", if p[1] == "1" { "~" } else { "" }, p[2], ann, name)
+    }
     "D" => format!("{}{} := {}", if p[1] == "1" { "~" } else { "" }, p[2], expr_src(p[3])),
     "A" => format!("{} = {}", p[1], expr_src(p[2])),
     "I" => { let ix: Vec<&str> = p[2].split(',').collect(); if ix.len() == 1 { format!("{}[{}] = {}", p[1], ix[0], p[3]) } else { format!("{}[[{}]] = {}", p[1], ix.join(" "), p[3]) } }
@@ -135,6 +141,7 @@ pub fn generate(seed: u64, thorough: bool, sink: &mut Sink) -> Vec<String> {
         "b" => Some((6, 0)),
         "t" => Some((6, 2)),
         "v" | "c" => st.iter().find(|x| x.0 == rest).map(|x| (x.2, x.3)),
+        "K" => { let name = rest.split('/').nth(1).unwrap_or(""); st.iter().find(|x| x.0 == name).map(|x| (x.2, x.3)) }
         _ => None,
       }
     }
@@ -164,6 +171,15 @@ pub fn generate(seed: u64, thorough: bool, sink: &mut Sink) -> Vec<String> {
         let nm = if valid && !fresh.is_empty() { *rng.pick(&fresh) } else { any_name };
         let m = if rng.chance(2, 3) { 1 } else { 0 };
         let e = if valid && rng.chance(1, 2) { gen_kind_expr(&mut rng, session_kind) } else { source(&mut rng, None, &st) };
+        // a copy of a name believed to hold a number or a matrix is written, half of the time, as a define annotated
+        // with exactly that kind and shape (a fresh value as well: the annotation converts, it must not share)
+        let e = if e.starts_with('c') && rng.chance(1, 2) {
+          match st.iter().find(|x| x.0 == &e[1..]) {
+            Some(x) if x.2 == 0 => format!("K0/{}", x.0),
+            Some(x) if x.2 == 1 => format!("K1x{}/{}", x.3, x.0),
+            Some(x) if x.2 == 2 => format!("K{}x1/{}", x.3, x.0),
+            Some(x) if x.2 == 3 => format!("K2x2/{}", x.0),
+            _ => e } } else { e };
         if !st.iter().any(|x| x.0 == nm) { if let Some((k, n)) = kind_of(&e, &st) { if !(e.starts_with('c') && k > 3) { st.push((nm, m == 1, k, n)); } } }
         format!("D:{}:{}:{}", m, nm, e)
       } else {
@@ -249,6 +265,12 @@ pub fn generate(seed: u64, thorough: bool, sink: &mut Sink) -> Vec<String> {
     cases.push(format!("session\tD:0:a:n{};;D:0:c:t1,2;;T:a,b:c;;A:a:n7;;D:0:d:ca", v));
     cases.push(format!("session\tD:1:a:n{};;D:0:c:t1,2;;T:b,a:c;;P:a:n1", v));
     cases.push(format!("session\tD:0:c:t{},2;;T:a,b:c;;T:a,d:c;;T:d,d:c", v));
+    // a define annotated with the source's own kind and shape is a fresh value
+    cases.push(format!("session\tD:1:a:m1x3/1,2,3;;D:0:b:K1x3/a;;I:a:1:{};;A:a:m1x3/7,8,9;;P:a:n1", v));
+    cases.push(format!("session\tD:0:a:m2x2/1,2,3,4;;D:1:b:K2x2/a;;I:b:2:{};;P:b:n1;;D:0:c:K2x2/b", v));
+    cases.push(format!("session\tD:1:a:m3x1/1,2,3;;D:1:b:K3x1/a;;Q:m:a:n2;;Q:s:b:n{};;I:a:3:0", v));
+    cases.push(format!("session\tD:1:a:n{};;D:0:b:K0/a;;A:a:n9;;P:a:n1", v));
+    cases.push(format!("session\tD:0:a:n{};;D:1:b:K0/a;;A:b:n9;;Q:m:b:n2", v));
     sink.hit("pattern:sharing");
   }
   cases
